@@ -412,7 +412,7 @@ def _arith(text, count_texts):
     def peek():
         return s[pos[0]] if pos[0] < len(s) else ""
 
-    def atom():
+    def prim():
         c = peek()
         if c == "(":
             pos[0] += 1
@@ -440,6 +440,27 @@ def _arith(text, count_texts):
             pos[0] += m.end()
             return ("num", int(m.group(0)))
         raise _NotArith(text)
+
+    def atom():
+        # postfix forms on an operand: a.saturating_sub(b), a.saturating_add(b), a.wrapping_add(b), a.min(b), a.max(b), a.abs_diff(b),
+        # a.checked_sub(b).unwrap() (panics where `a - b` would: the same partial function), a.pred-like casts `a as T` are handled above
+        a = prim()
+        while True:
+            m = re.match(r"\.(saturating_sub|saturating_add|wrapping_add|checked_add|checked_sub|min|max|abs_diff)\(", s[pos[0]:])
+            if not m:
+                return a
+            pos[0] += m.end()
+            b = atom()
+            if peek() != ")":
+                raise _NotArith(text)
+            pos[0] += 1
+            op = m.group(1)
+            if op in ("checked_add", "checked_sub"):
+                m2 = re.match(r"\.(unwrap\(\)|expect\([^()]*\)|0(?![\w.]))", s[pos[0]:])      # `.0`: the extractor's payload projection of unwrap()
+                if not m2:
+                    raise _NotArith(text)
+                pos[0] += m2.end()
+            a = ({"saturating_sub": "ssub", "saturating_add": "+", "wrapping_add": "+", "checked_add": "+", "checked_sub": "-"}.get(op, op), a, b)
     a = atom()
     if pos[0] != len(s):
         raise _NotArith(text)
@@ -449,7 +470,7 @@ def _arith(text, count_texts):
 def _arith_consts(a, out):
     if a[0] == "num":
         out.append(a[1])
-    elif a[0] in "+-*":
+    elif a[0] in ("+", "-", "*", "ssub", "min", "max", "abs_diff"):
         _arith_consts(a[1], out)
         _arith_consts(a[2], out)
         if a[0] == "*" and a[1][0] != "num" and a[2][0] != "num":
@@ -470,6 +491,14 @@ def _arith_eval(a, i, n):
         return x + y
     if k == "*":
         return x * y
+    if k == "ssub":
+        return max(x - y, 0)
+    if k == "min":
+        return min(x, y)
+    if k == "max":
+        return max(x, y)
+    if k == "abs_diff":
+        return abs(x - y)
     if x < y:
         raise _NotArith("unsigned underflow")      # would panic (debug) or wrap (release): not the flag
     return x - y
@@ -1011,6 +1040,39 @@ def payload_rule(ctx, prog, refs, file_d, site_d, where_d, cmds):
         ctx.violation("PAYLOAD", "surface::Shape::nth", "not-row-major", "Shape::nth is not `row = n / width; col = n - row * width`")
 
 
+def sole_immutable_let(fn_item, name):
+    """init expression of `let <name> = <init>;` when that is the only binding of the name in the function, it is not `mut`, and the name
+    is never assigned, mutably borrowed or bound by another pattern (closure parameter, match arm, loop pattern); else None"""
+    lets, other = [], [0]
+
+    def f(n, parents):
+        k = n.get("k")
+        if k == "let":
+            pat = n.get("pat") or {}
+            if pat.get("k") == "ident" and pat.get("name") == name and not pat.get("mut") and not pat.get("by_ref") and n.get("init") is not None and n.get("else") is None:
+                lets.append(n)
+            elif name in T.pat_names(pat):
+                other[0] += 1
+        elif k in ("assign", "bin") and (k == "assign" or n.get("op") in T.ASSIGN_OPS) and T.canon(n["l"]).split(".")[0].split("[")[0] == name:
+            other[0] += 1
+        elif k == "ref" and n.get("mut") and "pat" not in n and T.canon(n["e"]).split(".")[0] == name:
+            other[0] += 1
+        elif k == "closure":
+            if any(name in T.pat_names(p_) for p_ in n.get("params", [])):
+                other[0] += 1
+        elif k in ("for", "letcond") and n.get("pat") is not None and name in T.pat_names(n["pat"]):
+            other[0] += 1
+        elif k == "match":
+            for arm in n.get("arms", []):
+                if arm.get("pat") is not None and name in T.pat_names(arm["pat"]):
+                    other[0] += 1
+    walk(fn_item["body"], f)
+    for p_ in fn_item["sig"]["inputs"]:
+        if (p_.get("pat") or {}).get("name") == name or p_.get("name") == name:
+            other[0] += 1
+    return lets[0]["init"] if len(lets) == 1 and not other[0] else None
+
+
 def flow_proj(e):
     k = e["k"]
     return "." + e["name"] if k == "field" else ("@" + e.get("variant", "?") if k == "downcast" else "<%s>" % k)
@@ -1250,8 +1312,22 @@ def run(ctx):
         ctx.anchor("CHUNK", "chunk-loop", "draw has %d writing loops, expected exactly the chunk loop" % len(stars))
     else:
         n = chunk_star.iter_node
-        if n is not None and n.get("k") == "mcall" and n["m"] == "enumerate":
-            n = n["recv"]
+
+        def strip_enumerate(n):
+            while n is not None and n.get("k") == "mcall" and n["m"] in ("enumerate", "into_iter", "by_ref") and not n["args"]:
+                n = n["recv"]
+            return n
+        n = strip_enumerate(n)
+        # a hoisted local (`let chunks = payload.chunks(N);`) which the extractor did not substitute (it is careful about every name that is
+        # also bound mutably somewhere, e.g. a shadowed `payload`): the size argument is a constant whatever the receiver is, and that the
+        # receiver is the encoder's output is decided on MIR by PAYLOAD.  Only an immutable, never re-bound, never assigned local is followed.
+        for _ in range(4):
+            if n is None or n.get("k") != "path" or "::" in n.get("p", ""):
+                break
+            init = sole_immutable_let(fn_d, n["p"])
+            if init is None:
+                break
+            n = strip_enumerate(init)
         size = None
         if n is not None and n.get("k") == "mcall" and n["m"] == "chunks" and len(n["args"]) == 1:
             a = n["args"][0]
@@ -1263,6 +1339,7 @@ def run(ctx):
                 if c and c[1]["expr"].get("k") == "lit" and c[1]["expr"]["t"] == "int":
                     size = int(c[1]["expr"]["v"])
         if size is None and chunk_recv is not None:
+            # named / computed constant: rustc has evaluated the argument
             ks = {op_const_int(t["args"][1]) for bb, t in (prog.inlined(DRAW) or bodies["draw"]).calls() if call_matches(t, r"\[T\]>::chunks$") and len(t["args"]) == 2}
             if len(ks) == 1:
                 size = ks.pop()
